@@ -402,21 +402,64 @@ fn part_b<A: VArena>(out: &mut Out, seed: &Seed, mode: OpenMode, only: Option<u6
     out.hash(mix(mode as u64 + 100, A::FLAVOUR as u64));
 }
 
+/// unsync only: `truncate(n)` on a read-only arena fails without effect — for every n (C18's quantifier:
+/// 0..=4*capacity), on a partly filled arena and on a completely full one (where max(n, allocated) ==
+/// capacity for every n <= capacity, i.e. the call would be a no-op if it were allowed).
 fn part_b_truncate(out: &mut Out, seed: &Seed) {
-    let before = std::fs::read(&seed.path).expect("seed file");
-    let o = Options::new().with_reserved(seed.cfg.reserved).with_magic_version(seed.cfg.magic).with_read(true);
-    let mut a = unsafe { o.map::<unsync::Arena, _>(&seed.path) }.expect("open");
-    let cap = a.capacity();
-    let r = a.truncate(cap + 100);
-    let r2 = a.truncate(0);
-    out.inc("c09_readonly_calls");
-    if r.is_ok() || r2.is_ok() || a.capacity() != cap {
-        out.viol("C09", "readonly:truncate:not-rejected", crate::jobj!("message" => format!("truncate on a read-only arena returned {:?}/{:?}, capacity {} -> {}", r.is_ok(), r2.is_ok(), cap, a.capacity())));
+    // a second file: the same arena, filled to the brim
+    let full_path = format!("{}.full", seed.path);
+    std::fs::write(&full_path, &seed.bytes).expect("copy seed");
+    {
+        let mut c = seed.cfg.clone();
+        c.path = Some(full_path.clone());
+        if let Ok(a) = reopen::<unsync::Arena>(&c, OpenMode::MapMut, None, false) {
+            let rem = a.remaining() as u32;
+            if let Ok(mut h) = a.alloc_bytes(rem) {
+                unsafe { rarena_allocator::Buffer::detach(&mut h) };
+            }
+            let _ = a.flush();
+        }
     }
-    drop(a);
-    if std::fs::read(&seed.path).unwrap_or_default() != before {
-        out.viol("C09", "readonly:truncate:changed-file", crate::jobj!("message" => "file changed"));
+    for (path, what) in [(seed.path.clone(), "partly-filled"), (full_path.clone(), "full")] {
+        let before = std::fs::read(&path).expect("seed file");
+        for mode in [OpenMode::Map, OpenMode::MapCopyRo] {
+            let o = Options::new().with_reserved(seed.cfg.reserved).with_magic_version(seed.cfg.magic).with_read(true);
+            let mut a = match mode {
+                OpenMode::Map => unsafe { o.map::<unsync::Arena, _>(&path) },
+                _ => unsafe { o.map_copy_read_only::<unsync::Arena, _>(&path) },
+            }
+            .expect("read-only open of a valid file");
+            let cap = a.capacity();
+            let used = a.allocated();
+            let mut ns: Vec<usize> = vec![0, 1, used.saturating_sub(1), used, used + 1, cap - 1, cap, cap + 1, cap + 100, 2 * cap, 4 * cap, cap / 2];
+            for k in 0..=16usize {
+                ns.push(cap * k / 4);
+            }
+            let st = |a: &unsync::Arena| (a.capacity(), a.allocated(), a.discarded(), a.minimum_segment_size(), a.snap(), a.memory().to_vec());
+            let pre = st(&a);
+            for n in ns {
+                out.inc("c09_readonly_calls");
+                out.inc("c18_readonly_truncate_checks");
+                if n.max(used) == cap {
+                    out.inc("c18_readonly_truncate_checks_where_the_call_would_be_a_no_op");
+                }
+                let r = a.truncate(n);
+                let post = st(&a);
+                if r.is_ok() || post != pre {
+                    let msg = format!("truncate({}) on a read-only ({:?}, {}) arena with allocated {} capacity {} returned {} and left capacity {} allocated {}", n, mode, what, used, cap, if r.is_ok() { "Ok" } else { "Err" }, post.0, post.1);
+                    out.viol("C18", "readonly-truncate-not-rejected", crate::jobj!("message" => msg.clone(), "mode" => format!("{:?}", mode), "arena" => what, "n" => n as u64));
+                    out.viol("C09", "readonly:truncate:not-rejected", crate::jobj!("message" => msg, "mode" => format!("{:?}", mode), "arena" => what, "n" => n as u64));
+                    break;
+                }
+            }
+            drop(a);
+            if std::fs::read(&path).unwrap_or_default() != before {
+                out.viol("C18", "readonly-truncate-changed-file", crate::jobj!("message" => "file changed by truncate on a read-only arena"));
+                out.viol("C09", "readonly:truncate:changed-file", crate::jobj!("message" => "file changed"));
+            }
+        }
     }
+    let _ = std::fs::remove_file(&full_path);
 }
 
 pub fn child_main(args: &Args) -> i32 {
@@ -440,6 +483,14 @@ pub fn child_main(args: &Args) -> i32 {
     if part == "a" {
         part_a(&mut out, &mut rng, &seeds, thorough);
         out.sample(crate::jobj!("seed_file_cfg" => seeds[0].cfg.to_json(), "file_len" => seeds[0].bytes.len(), "id_bytes" => J::Arr(seeds[0].bytes[seeds[0].cfg.reserved as usize..seeds[0].cfg.reserved as usize + 8].iter().map(|b| J::Int(*b as i128)).collect())));
+    } else if part == "t" {
+        // C18: truncate on read-only arenas (unsync only)
+        for s in seeds.iter() {
+            out.at(&format!("files --part t --seed {} (read-only truncate sweep on {})", seed, s.path));
+            part_b_truncate(&mut out, s);
+            out.hash(mix(0x7C18, s.bytes.len() as u64));
+        }
+        out.sample(J::Str(format!("files --part t --seed {}: truncate(n) for n in 0..=4*capacity on read-only arenas (map, map_copy_read_only; partly filled and full)", seed)));
     } else {
         let only = args.kv.get("call").and_then(|s| s.parse::<u64>().ok());
         let mode = if args.str("mode", "Map") == "Map" { OpenMode::Map } else { OpenMode::MapCopyRo };
